@@ -79,7 +79,7 @@ func (a *ApoStrategy) Report(c <-chan *asset.Snapshot) *helper.Report {
 
 	dates := asset.SnapshotsAsDates(snapshots[0])
 	closings := helper.Duplicate(asset.SnapshotsAsClosings(snapshots[2]), 2)
-	apo := helper.Shift(a.Apo.Compute(closings[1]), a.Apo.SlowPeriod, 0)
+	apo := helper.Shift(a.Apo.Compute(closings[1]), a.Apo.SlowPeriod-1, 0)
 
 	actions, outcomes := strategy.ComputeWithOutcome(a, snapshots[1])
 	annotations := strategy.ActionsToAnnotations(actions)
